@@ -174,3 +174,105 @@ def handle(mod, server, request_bytes, client=('10.1.1.1', 4711)):
     sock = FakeSocket(request_bytes)
     mod.ListenerRequestHandler(sock, client, server)
     return sock.out.getvalue()
+
+
+# ------------------------------------------------------------------------------------------
+# binding of the transcribed server (FakeServer) and of the stub-server harness of C17 to the real
+# class: the facts they assume, observed on pywbem's real ThreadedHTTPServer over a loopback socket
+# (free-running, not scheduled; used by mc.selftest and as a 'binding' shard of C16 and C17)
+
+def server_binding_problems():
+    """-> (list of (fact, expected, observed), skipped_reason|None)"""
+    import socket
+    import threading as T
+    import time as tm
+    from http.server import BaseHTTPRequestHandler
+    from pywbem import _listener
+    problems = []
+    entered, release = T.Event(), T.Event()
+    second_served = T.Event()
+
+    class H(BaseHTTPRequestHandler):
+        def do_POST(self):
+            if self.path == '/block':
+                entered.set()
+                release.wait(10)
+            else:
+                second_served.set()
+            self.send_response(200)
+            self.send_header('Content-Length', '0')
+            self.end_headers()
+
+        def log_message(self, *a):
+            pass
+    try:
+        srv = _listener.ThreadedHTTPServer(('127.0.0.1', 0), H)
+    except OSError as exc:
+        return [], 'no loopback socket: %s' % exc
+    port = srv.server_address[1]
+    try:
+        # fact 1: shutdown() called BEFORE serve_forever() blocks until the loop has run and exited
+        done = []
+        t_sd = T.Thread(target=lambda: (srv.shutdown(), done.append('shutdown')))
+        t_sd.start()
+        tm.sleep(0.3)
+        if done:
+            problems.append(('shutdown-before-serve-returns-early', 'blocks until serve_forever() ran', 'returned'))
+        t_loop = T.Thread(target=srv.serve_forever, kwargs={'poll_interval': 0.05})
+        t_loop.start()
+        t_sd.join(10)
+        t_loop.join(10)
+        if done != ['shutdown'] or t_loop.is_alive():
+            problems.append(('shutdown-does-not-end-the-loop', 'loop ended, shutdown returned',
+                             [done, t_loop.is_alive()]))
+            return problems, None
+        # facts 2-4
+        t_loop = T.Thread(target=srv.serve_forever, kwargs={'poll_interval': 0.05})
+        t_loop.start()
+        s1 = socket.create_connection(('127.0.0.1', port), timeout=10)
+        s1.sendall(b'POST /block HTTP/1.1\r\nContent-Length: 0\r\n\r\n')
+        if not entered.wait(10):
+            problems.append(('request-not-handled-while-loop-runs', 'handler entered', 'not entered'))
+        # fact 4: another connection is served while the first handler is still busy
+        s2 = socket.create_connection(('127.0.0.1', port), timeout=10)
+        s2.sendall(b'POST /other HTTP/1.1\r\nContent-Length: 0\r\n\r\n')
+        if not second_served.wait(3):
+            problems.append(('busy-handler-blocks-other-connections', 'second request served concurrently',
+                             'not served within 3 s'))
+            release.set()
+        else:
+            s2.settimeout(10)
+            s2.recv(100)
+        s2.close()
+        srv.shutdown()
+        t_loop.join(10)
+        closed = []
+        t_close = T.Thread(target=lambda: (srv.server_close(), closed.append(1)))
+        t_close.start()
+        tm.sleep(0.4)
+        # fact 3: server_close() waits for in-flight handlers
+        if closed and not release.is_set():
+            problems.append(('server_close-does-not-wait-for-handlers', 'blocks while a handler runs', 'returned'))
+        release.set()
+        t_close.join(10)
+        try:
+            s1.settimeout(10)
+            if b'200' not in s1.recv(100):
+                problems.append(('in-flight-request-not-answered', '200', 'no response'))
+        except OSError as exc:
+            problems.append(('in-flight-request-not-answered', '200', repr(exc)))
+        s1.close()
+        # fact 5: after close nothing accepts connections
+        try:
+            socket.create_connection(('127.0.0.1', port), timeout=1).close()
+            problems.append(('port-still-bound-after-server_close', 'connection refused', 'connected'))
+        except OSError:
+            pass
+    finally:
+        release.set()
+        try:
+            srv.server_close()
+        except Exception:   # noqa
+            pass
+    return problems, None
+
